@@ -142,6 +142,36 @@ fn eval_inner(name: &str, cp: u32) -> Option<String> {
                 }
             }
         }
+        "dir_rE" | "dir_rcr" | "dir_lcl" | "dir_rcn" => {
+            // the class a scan sees for c INSIDE a label (not only through bidi_class / has_rtl): four contexts that
+            // together distinguish every class the RTL and LTR scans treat differently
+            use precis_core::profile::Rules;
+            let c = ch?;
+            let s: String = match name {
+                "dir_rE" => ['\u{5d0}', '-', c].iter().collect(),
+                "dir_rcr" => ['\u{5d0}', c, '\u{5d0}'].iter().collect(),
+                "dir_lcl" => ['a', c, 'a'].iter().collect(),
+                _ => ['\u{5d0}', c, '\u{5b0}'].iter().collect(),
+            };
+            match precis_profiles::UsernameCasePreserved::new().directionality_rule(s.as_str()) {
+                Ok(t) => if t == s { "ok".to_string() } else { "changed".to_string() },
+                Err(_) => "err".to_string(),
+            }
+        }
+        "zwnj_b2" | "zwnj_a2" => {
+            // the ZWNJ rule with c at distance TWO from U+200C inside the transparent run (the direct neighbour is U+05BF)
+            let c = ch?;
+            let (s, off): (String, usize) = if name == "zwnj_b2" {
+                (['\u{626}', c, '\u{5bf}', '\u{200c}', '\u{626}'].iter().collect(), 3)
+            } else {
+                (['\u{626}', '\u{200c}', '\u{5bf}', c, '\u{626}'].iter().collect(), 1)
+            };
+            match precis_core::context::rule_zero_width_nonjoiner(&s, off) {
+                Ok(v) => format!("ok:{}", v),
+                Err(precis_core::context::ContextRuleError::NotApplicable) => "err:NotApplicable".to_string(),
+                Err(precis_core::context::ContextRuleError::Undefined) => "err:Undefined".to_string(),
+            }
+        }
         "zs" => b(prof_hooks::is_space_separator(ch?)),
         "nonascii_zs" => b(prof_hooks::is_non_ascii_space(ch?)),
         "std_upper" => b(ch?.is_uppercase()),
